@@ -9,6 +9,57 @@ GUARDS = [("alias-dep-not-in-key", hc.g_no_alias_deps), ("key-collision", hc.g_k
           ("nocache-output-hash-ignores-paths", hc.g_no_nocache_multiout_dep)]
 
 
+def raw_workspace(ws, p_in, q_in):
+    """commands that do NOT echo their own label into their outputs (plain copies): //p:a and //q:a both write x.out
+    from their in.txt; //r:t concatenates the two.  Distinct targets, distinct packages, same package-relative output path."""
+    import os
+    for pkg, content in (("p", p_in), ("q", q_in)):
+        os.makedirs(os.path.join(ws, pkg), exist_ok=True)
+        json.dump({"targets": [{"name": "a", "command": "cp in.txt x.out", "inputs": ["in.txt"], "outputs": ["x.out"]}]},
+                  open(os.path.join(ws, pkg, "BUILD.json"), "w"))
+        open(os.path.join(ws, pkg, "in.txt"), "w").write(content)
+    os.makedirs(os.path.join(ws, "r"), exist_ok=True)
+    json.dump({"targets": [{"name": "t", "command": "cat ../p/x.out ../q/x.out > t.out", "dependencies": ["//p:a", "//q:a"],
+                            "outputs": ["t.out"]}]}, open(os.path.join(ws, "r", "BUILD.json"), "w"))
+    open(os.path.join(ws, "grog.toml"), "w").write("")
+
+
+def witness_dep_swap(out, findings):
+    """Model-free (the generator's commands always echo their label, so Build.v cannot express this history): the outputs of
+    two dependencies swap contents between two builds; the dependant reads both and must be rebuilt."""
+    import os, subprocess
+    grog = vlib.build_grog()
+    base = os.path.join(vlib.scratch(), "depswap")
+    ws, root, ws2, root2 = (os.path.join(base, x) for x in ("ws", "root", "ws2", "root2"))
+    for d in (root, root2):
+        os.makedirs(d, exist_ok=True)
+    run1 = lambda w, r: subprocess.run([grog, "build", "//..."], cwd=w, env=bl.grog_env(r, os.path.join(base, "trace")),
+                                       stdout=subprocess.PIPE, stderr=subprocess.PIPE, text=True, timeout=120)
+    raw_workspace(ws, "AAA\n", "BBB\n")
+    a = run1(ws, root)
+    raw_workspace(ws, "BBB\n", "AAA\n")
+    b = run1(ws, root)
+    raw_workspace(ws2, "BBB\n", "AAA\n")
+    cl = run1(ws2, root2)
+    rd = lambda w: open(os.path.join(w, "r", "t.out")).read() if os.path.exists(os.path.join(w, "r", "t.out")) else None
+    inc, clean = rd(ws), rd(ws2)
+    desc = ["//p:a and //q:a: `cp in.txt x.out`; //r:t depends on both: `cat ../p/x.out ../q/x.out > t.out`",
+            "p/in.txt=AAA q/in.txt=BBB; grog build //...", "swap: p/in.txt=BBB q/in.txt=AAA; grog build //... (same cache)",
+            "from-scratch build of the swapped sources in a fresh workspace and cache root"]
+    if a.returncode or b.returncode or cl.returncode:
+        out.violation("dependency-swap witness: a build failed (%s %s %s): %s" % (a.returncode, b.returncode, cl.returncode, (a.stderr + b.stderr + cl.stderr)[-300:]),
+                      {"description": desc}, no_input=True)
+    elif inc != clean:
+        what = ("the outputs of two dependencies swap contents (same package-relative output path in two packages): the dependant is served from the "
+                "cache with the stale bytes: incremental r/t.out = %r, from-scratch = %r" % (inc, clean))
+        f = findings.get("dependency-identity-not-in-key")
+        if f:
+            out.known(f["id"], what)
+        else:
+            out.violation(what, {"description": desc, "observed": {"incremental": inc, "clean": clean, "second_build_stdout": b.stdout[-300:] + b.stderr[-300:]}})
+    return 3
+
+
 def run(out, tier):
     n_clean, n_full = (40, 40) if tier == "quick" else (600, 900)
     plans = [("witness-alias", hc.witness_alias_change()), ("witness-file-boundary", hc.witness_file_boundary())]
@@ -16,7 +67,7 @@ def run(out, tier):
     plans += [("full", hc.plan_edits(hc.FULL, nedits=3))] * n_full
     batch = hc.run_batch(plans, vlib.seed())
     findings = {f["class"]: f for f in vlib.known_findings("C01")}
-    oracle_evals = 0
+    oracle_evals = witness_dep_swap(out, findings)
     for name, h, notes, m in batch:
         for note in notes:
             if note[0] == "plan-error":
